@@ -18,6 +18,7 @@ from pw_verif.snap import Malformed, Snapshot, bookkeeping_problems, snapshot, v
 from pw_verif.world import World, prepare, reset_library_globals
 
 TOL_EXACT = 1e-8
+TOL_EXPM = 1e-6       # operators built by a matrix exponential with |eta| up to 4 pi (jax expm ~2e-9 per element)
 TOL_TRUNC = 5e-3      # displacement / squeezing (documented truncation threshold 1-1e-6)
 
 
